@@ -22,7 +22,7 @@ func init() {
 			{"C03/id-registered-resolved", ruleC03IDRegistered},
 		},
 		Explanation: "Decides the bookkeeping shape of reference resolution for every topology: a loaded document is entered in the loader cache under both its retrieval URI and its canonical URI before its own references are followed (termination of cycles, at-most-once loading of aliases); the Loader is called only on the miss outcome of the local URI table and of the cache, all keyed by the same URI value that is then resolved; whenever the root of another Resolved (freshly loaded or cached) is used as a lookup key in the current side table, the other document's side tables have been merged on every path; a successful return of the reference resolver yields either the schema of an anchor found by a two-result lookup or the result of the JSON-Pointer walker, never a fallback; a reference is resolved against the URI of the base resource of the schema that holds it; each $id is registered under, and scoped by, the URI obtained by RFC 3986 resolution against the parent base. It does NOT decide RFC 3986 resolution itself (net/url) or which target a concrete topology selects.",
-		NotDecided: []string{"RFC 3986 resolution (delegated to net/url)", "which target a concrete reference topology selects", "duplicate-anchor handling (errors of setAnchor are discarded; outside the property's domain)"},
+		NotDecided:  []string{"RFC 3986 resolution (delegated to net/url)", "which target a concrete reference topology selects", "duplicate-anchor handling (errors of setAnchor are discarded; outside the property's domain)"},
 	})
 }
 
